@@ -469,7 +469,7 @@ public:
             const auto array   = this->array().template cast<double>();
             const auto count   = static_cast<double>(size());
             const auto average = array.mean();
-            variance           = array.square().sum() / count - average * average;
+            variance           = std::max(array.square().sum() / count - average * average, 0.0);
         }
         return variance;
     }
